@@ -135,6 +135,9 @@ func (vc *VC) entryScope() *Scope {
 }
 
 func (vc *VC) pkgOf(fn *ssa.Function) *types.Package {
+	if fn == nil {
+		return nil
+	}
 	for fn != nil {
 		if fn.Pkg != nil {
 			return fn.Pkg.Pkg
@@ -314,6 +317,8 @@ func (vc *VC) checkFrame(st *State, heap string, sort Sort, idx Term, in ssa.Ins
 	var alts []Term
 	if arrayKeySort(sort) == SInt {
 		alts = append(alts, App(SBool, ">", Base(idx), vc.entry.top))
+	} else if arrayKeySort(sort) == SIface {
+		alts = append(alts, App(SBool, ">", Base(IfVal(idx)), vc.entry.top))
 	}
 	for _, m := range vc.modTop {
 		if m.heap == heap {
@@ -405,6 +410,24 @@ func (vc *VC) scanInstr(f *Frame, in ssa.Instruction, heaps map[string]Sort, add
 			heaps[it.visited] = ArraySort(env.SortOf(mt.Key()), SBool)
 		}
 	case ssa.CallInstruction:
+		if ca := vc.callAsFor(in); ca != nil {
+			if m := vc.p.cs.Funcs["model::"+ca.Model]; m != nil && !m.ModAll {
+				sc := &Scope{vc: vc, pkg: vc.p.typesPkg(m.PkgPath), vars: map[string]scopeVar{}, st: &State{heaps: map[string]Term{}, locals: map[cellKey]Term{}, gen: -1, top: IntLit(0), pc: True}}
+				sc.old = sc.st
+				for _, q := range m.ModelParams {
+					if t, err := vc.p.ResolveType(q.T, sc.pkg); err == nil {
+						srt := vc.env.SortOf(t)
+						cn := "dummy_" + sanitize(q.Name) + "_" + sanitize(string(srt))
+						vc.declConst(cn, srt)
+						sc.vars[q.Name] = scopeVar{Term{cn, srt}, t}
+					}
+				}
+				for _, ml := range vc.evalMods(sc, m) {
+					heaps[ml.heap] = ml.sort
+				}
+				return false
+			}
+		}
 		hs, a := vc.callMods(f, x.Common(), depth)
 		for k, v := range hs {
 			heaps[k] = v
